@@ -339,6 +339,17 @@ class Impl:
             except Exception as e:   # noqa
                 outs.append([3, lib.exc_code(e)])
             mev = [0, payload, retry, -1 if cbid is None else cbid]
+        elif kind == "sendg":
+            # the public guaranteed-delivery API: UdpClient.send_guaranteed / ServerClientConnection.send_guaranteed
+            _, payload, cbid = ev
+            try:
+                if self.role == "client":
+                    self.client.send_guaranteed(payload, callback=self.user_cb(cbid))
+                else:
+                    self.conn.send_guaranteed(payload, callback=self.user_cb(cbid))
+            except Exception as e:   # noqa
+                outs.append([3, lib.exc_code(e)])
+            mev = [0, payload, -1, -1 if cbid is None else cbid]
         elif kind == "ctick":
             _, now, rx = ev
             CLOCK.t = now
